@@ -2201,9 +2201,9 @@ class LogicalFile:
             data = {}
 
         if isinstance(data, dict):
-            self._data_dict = self._data_dict | data
+            # (a new dict: data passed to one write() must not become part of the specification used by later writes)
             data_object = DictDataWrapper(
-                self._data_dict,
+                self._data_dict | data,
                 mapping=fr.channel_name_mapping,
                 known_dtypes=fr.known_channel_dtypes_mapping,
                 from_idx=from_idx,
